@@ -522,6 +522,10 @@ Contract("jsonrpclib.jsonrpc.JSONParser.feed",
              c.returns, c.new(c.old(c.a.self, "target"), "data") ==
              _appended(c.old(c.old(c.a.self, "target"), "data"), c.a.data)), ("C17",))],
          modifies=[Field(lambda c: c.old(c.a.self, "target"), "data")], props=("C17",))
+# the transport calls it between the last feed and the target's close(): it must leave what was fed alone (frame: nothing)
+Contract("jsonrpclib.jsonrpc.JSONParser.close",
+         ensures=[("does_nothing", lambda c: z3.And(c.returns, V.is_none(c.ret)), ("C17",))],
+         modifies=[], props=("C17",))
 Contract(TMIX + ".getparser",
          ensures=[("parser_feeds_a_fresh_target", lambda c: z3.And(
              c.returns, V.is_tuple(c.ret), Val.tlen(c.ret) == 2,
@@ -529,3 +533,113 @@ Contract(TMIX + ".getparser",
                                   c.new(t, "data") == V.empty_list()))(z3.Select(Val.tat(c.ret), 0), z3.Select(Val.tat(c.ret), 1))),
                    ("C17",))],
          modifies=[Fresh("target"), Fresh("data")], props=("C17",))
+
+
+# --- the Unix-socket transport (C17: the URL's path names the socket; C19: the cached connection is keyed by that socket) ---------
+UT = "jsonrpclib.jsonrpc.UnixTransport"
+UHC = "jsonrpclib.jsonrpc.UnixHTTPConnection"
+_UP = "_UnixTransport__unix_path"
+FIELDS.declare(UT, _UP)
+FIELDS.declare(UT, "_connection")
+FIELDS.declare(UHC, "path")
+host_info_path = z3.Function("host_info_path", Val, Val)        # first component of xmlrpc's get_host_info(host)
+host_info_headers = z3.Function("host_info_headers", Val, Val)  # second component
+
+
+@TABLE.register("xmlrpc.client.Transport.get_host_info")
+def _tr_get_host_info(ex, st, args, kwargs, text):
+    """xmlrpc.client.Transport.get_host_info(host): a 3-tuple (host without credentials, extra headers, x509), a function
+    of host; no side effect; does not raise for a str"""
+    host = ex.lift(args[1])
+    return [(st, ("val", V.mk_tuple([host_info_path(host), host_info_headers(host), V.VNone])))]
+
+
+@TABLE.register("http.client.HTTPConnection.__init__")
+def _hc_init(ex, st, args, kwargs, text):
+    """http.client.HTTPConnection.__init__(host, ...): records the host; connects nothing"""
+    st = st.copy()
+    st.write(Val.ref(ex.lift(args[0])), "host", ex.lift(args[1]))
+    return [(st, ("val", V.VNone))]
+
+
+FIELDS.declare(UHC, "host")
+Contract(UHC + ".__init__", kinds={"path": "val"},
+         requires=[("star", lambda c: z3.And(V.is_tuple(c.a.args), Val.tlen(c.a.args) == 0, V.is_dict(c.a.kwargs), Val.dlen(c.a.kwargs) == 0))],
+         ensures=[("socket_path_stored_host_is_localhost", lambda c: z3.And(
+             c.returns, c.new(c.a.self, "path") == c.a.path, c.new(c.a.self, "host") == V.S("localhost")), ("C17",))],
+         modifies=[Field(lambda c: c.a.self, "path"), Field(lambda c: c.a.self, "host")], props=("C17",))
+
+
+def _ut_conn(c, heap="old"):
+    return (c.old if heap == "old" else c.new)(c.a.self, "_connection")
+
+
+def _ut_key(c):
+    up = c.old(c.a.self, _UP)
+    return z3.If(V.truthy(up), up, c.a.host)
+
+
+def _ut_hit(c):
+    return _ut_key(c) == z3.Select(Val.tat(_ut_conn(c)), 0)        # a str against None or a str: Python equality is identity of values
+
+
+Contract(
+    UT + ".make_connection",
+    kinds={"host": "str"},
+    requires=[("cache", lambda c: z3.And(V.is_tuple(_ut_conn(c)), Val.tlen(_ut_conn(c)) == 2,
+                                         z3.Or(V.is_none(z3.Select(Val.tat(_ut_conn(c)), 0)), V.is_str(z3.Select(Val.tat(_ut_conn(c)), 0))),
+                                         z3.Or(V.is_none(c.old(c.a.self, _UP)), V.is_str(c.old(c.a.self, _UP)))))],
+    ensures=[
+        ("cached_connection_reused_only_for_the_same_socket", lambda c: implies(_ut_hit(c), z3.And(
+            c.returns, c.ret == z3.Select(Val.tat(_ut_conn(c)), 1), _ut_conn(c, "new") == _ut_conn(c))), ("C19", "C17")),
+        ("otherwise_a_new_connection_to_the_socket_the_url_names", lambda c: implies(z3.Not(_ut_hit(c)), z3.And(
+            c.returns, c.fresh_obj(c.ret), c.new(c.ret, "path") == host_info_path(_ut_key(c)),
+            _ut_conn(c, "new") == tup(_ut_key(c), c.ret))), ("C19", "C17")),
+    ],
+    modifies=[Field(lambda c: c.a.self, "_connection"), Field(lambda c: c.a.self, "_extra_headers"), Fresh("path"), Fresh("host")],
+    types={"return": UHC},
+    props=("C17", "C19"),
+)
+
+
+# --- UnixHTTPConnection.connect: a stream socket of the Unix family, connected to the stored path ------------------------------------
+import socket as _socket                                                      # noqa: E402
+import pyvc.builtins_model as _B                                              # noqa: E402
+SOCK = "socket.socket"
+for _f in ("family", "type", "connected_to"):
+    FIELDS.declare(SOCK, _f)
+
+
+def _ctor_socket(ex, st, args, kwargs, text):
+    """socket.socket(family, type): a new, unconnected socket object recording both; may raise OSError"""
+    st = st.copy()
+    s_ = st.alloc(_socket.socket)
+    st.write(Val.ref(s_), "family", ex.lift(args[0]))
+    st.write(Val.ref(s_), "type", ex.lift(args[1]))
+    st.write(Val.ref(s_), "connected_to", V.VNone)
+    s_ex = st.copy()
+    s_ex.sig.append("socket:raise")
+    return [(st, ("val", s_)), (s_ex, ("raise", ex.env_exc(s_ex, OSError)))]
+
+
+_B._CTORS[_socket.socket] = _ctor_socket
+
+
+@TABLE.register("_socket.socket.connect")
+@TABLE.register("socket.socket.connect")
+def _sock_connect(ex, st, args, kwargs, text):
+    """socket.connect(address): the socket is connected to that address, or OSError is raised"""
+    st = st.copy()
+    s_ex = st.copy()
+    s_ex.sig.append("connect:raise")
+    st.write(Val.ref(ex.lift(args[0])), "connected_to", ex.lift(args[1]))
+    return [(st, ("val", V.VNone)), (s_ex, ("raise", ex.env_exc(s_ex, OSError)))]
+
+
+Contract(UHC + ".connect",
+         ensures=[("stream_socket_connected_to_the_stored_path", lambda c: implies(c.returns, (lambda s_: z3.And(
+             c.fresh_obj(s_), c.new(s_, "connected_to") == c.old(c.a.self, "path"),
+             c.new(s_, "family") == V.I(int(_socket.AF_UNIX)), c.new(s_, "type") == V.I(int(_socket.SOCK_STREAM))))(
+             c.new(c.a.self, "sock"))), ("C17", "C19")),
+                  ("failure_is_an_os_error", lambda c: implies(c.raised, c.raises(OSError)), ("C19",))],
+         modifies=[Field(lambda c: c.a.self, "sock"), Fresh("family"), Fresh("type"), Fresh("connected_to")], props=("C17", "C19"))
